@@ -1,11 +1,11 @@
-SPECIFICATION Spec
+SPECIFICATION SpecMkt
 CONSTANTS
-  CID = {"c1", "c2"}
-  EXCH = {"x1", "x2"}
-  TRADED = {"x1", "x2"}
-  MaxSends = 1
+  CID = {"c1"}
+  EXCH = {"d0", "x1"}
+  TRADED = {"x1"}
+  MaxSends = 2
   MaxKills = 1
-  MaxMkt = 0
+  MaxMkt = 3
 INVARIANTS TypeOK AtMostOnce InFlightBacked Routed ConnMatchesLinks DataOnlyAccountDown NeverGloballyHealthy
 PROPERTIES Resolved Noticed Synced OnDisconnectExact
 CHECK_DEADLOCK FALSE
